@@ -3,7 +3,7 @@
    Part 2: the footprint table: operations on distinct instances do not conflict when the
    structural facts are those of the repaired tree; with the pre-repair facts they do, and
    an explicit interleaving corrupts a result. *)
-From Verif Require Import Base Params Indep IndepFacts.
+From Verif Require Import Base Params ParamsFoot Indep IndepFacts.
 Open Scope Z_scope.
 
 Section MachineProofs.
@@ -739,3 +739,132 @@ Theorem package_state_inventory :
   forallb registry_is_locked Params.package_vars = true /\
   length (filter is_registry Params.package_vars) = length Params.registry_locked.
 Proof. repeat split; vm_compute; reflexivity. Qed.
+
+(* ---------- the static footprint extraction (tools/gofootprint -> ParamsFoot.v) ---------- *)
+
+(* What follows does NOT compute on the regenerated tables: these implications hold whatever the
+   tables are, so a change of the Go sources never breaks this file.  That the premise
+   [static_ok = true] holds for the current sources is proved by computation in IndepStatic.v,
+   which only ./check C19 compiles. *)
+
+Lemma is_nil_true {A} (l : list A) : is_nil l = true -> l = [].
+Proof. destruct l; [reflexivity | discriminate]. Qed.
+
+Lemma strs_eqb_eq a b : strs_eqb a b = true -> a = b.
+Proof.
+  revert b. induction a as [|x a IH]; intros [|y b] H; simpl in H; try discriminate; [reflexivity|].
+  apply andb_true_iff in H. destruct H as [H1 H2]. apply String.eqb_eq in H1. subst y. f_equal. exact (IH b H2).
+Qed.
+
+Lemma pairs_eqb_eq a b : pairs_eqb a b = true -> a = b.
+Proof.
+  revert b. induction a as [|[x1 x2] a IH]; intros [|[y1 y2] b] H; simpl in H; try discriminate; [reflexivity|].
+  apply andb_true_iff in H. destruct H as [H12 H3]. apply andb_true_iff in H12. destruct H12 as [H1 H2].
+  apply String.eqb_eq in H1. apply String.eqb_eq in H2. subst y1 y2. f_equal. exact (IH b H3).
+Qed.
+
+Lemma facts_eqb_eq a b :
+  facts_eqb a b = true ->
+  f_registries_locked a = f_registries_locked b /\ f_notation_shares_formatter a = f_notation_shares_formatter b /\
+  f_notation_shares_parser a = f_notation_shares_parser b /\ f_sorter_shares_collator a = f_sorter_shares_collator b /\
+  f_collator_shares_depth a = f_collator_shares_depth b.
+Proof.
+  unfold facts_eqb. intros H.
+  apply andb_true_iff in H. destruct H as [H H5]. apply andb_true_iff in H. destruct H as [H H4].
+  apply andb_true_iff in H. destruct H as [H H3]. apply andb_true_iff in H. destruct H as [H1 H2].
+  repeat split; apply Bool.eqb_prop; assumption.
+Qed.
+
+Lemma facts_repaired_b_spec F :
+  facts_repaired_b F = true -> is_repaired F /\ f_collator_shares_depth F = false.
+Proof.
+  unfold facts_repaired_b, is_repaired. intros H.
+  apply andb_true_iff in H. destruct H as [H H5]. apply andb_true_iff in H. destruct H as [H H4].
+  apply andb_true_iff in H. destruct H as [H H3]. apply andb_true_iff in H. destruct H as [H1 H2].
+  apply negb_true_iff in H2, H3, H4, H5. repeat split; assumption.
+Qed.
+
+Lemma static_ok_parts :
+  static_ok = true ->
+  foot_tool_ok = true /\ static_no_class_mutable = true /\ static_no_foreign_writes = true /\
+  static_shared_edges_expected = true /\ static_pkgvars_guarded = true /\ static_accessors_disciplined = true /\
+  static_methods_write_own = true /\ static_facts_agree = true.
+Proof.
+  unfold static_ok. intros H.
+  repeat (apply andb_true_iff in H; let H' := fresh "P" in destruct H as [H H']).
+  repeat split; assumption.
+Qed.
+
+(* the structural facts behind the table, obtained from the regular expressions of genparams.py,
+   are confirmed by the typed analysis and are those of the repaired tree *)
+Lemma static_ok_repaired :
+  static_ok = true -> is_repaired current_facts /\ f_collator_shares_depth current_facts = false.
+Proof.
+  intros H. apply static_ok_parts in H. destruct H as [_ [_ [_ [_ [_ [_ [_ H]]]]]]].
+  unfold static_facts_agree in H. apply andb_true_iff in H. destruct H as [R E].
+  apply facts_repaired_b_spec in R. destruct R as [[R1 [R2 [R3 R4]]] R5].
+  apply facts_eqb_eq in E. destruct E as [E1 [E2 [E3 [E4 E5]]]].
+  unfold is_repaired. rewrite <- E1, <- E2, <- E3, <- E4, <- E5. repeat split; assumption.
+Qed.
+
+(* with the static obligations discharged, every cell an operation of the table writes is the cell of
+   one of its own instances, or a registry entry, which is only accessed inside the accessor's
+   critical section *)
+Theorem static_facts_justify_table :
+  static_ok = true ->
+  forall (d : opdesc) (c : cell), In c (writes (fp_of current_facts d)) ->
+    (exists i, In i (insts d) /\ c = CInst i) \/
+    (exists k t, c = CReg k t /\ guarded current_facts c = true).
+Proof.
+  intros H d c Hc. destruct (static_ok_repaired H) as [R _].
+  assert (Ht : In c (touches cell (fp_of current_facts d))) by (unfold touches; apply in_or_app; right; exact Hc).
+  destruct (touches_repaired current_facts d c R Ht) as [[k [t E]]|[i [Hi E]]].
+  - right. exists k, t. split; [exact E|]. subst c. simpl. destruct R as [L _]. exact L.
+  - left. exists i. split; assumption.
+Qed.
+
+(* what the static premise says about the sources, in words of the tables *)
+Theorem static_ok_meaning :
+  static_ok = true ->
+  foot_class_mutable = [] /\ foot_foreign_writes = [] /\
+  foot_shared_edges = expected_shared_edges /\ foot_escapes = expected_escapes /\
+  foot_pkgvar_unguarded = [] /\ foot_verif_pkgvar_unguarded = [] /\
+  foot_exported_vars = [] /\ foot_verif_exported_vars = expected_verif_exported_vars /\
+  (forall r, In r foot_accessors -> accessor_ok r = true) /\
+  map (fun r : accessor_row => fst (fst r)) foot_accessors = map fst Params.registry_locked /\
+  (forall m, In m foot_methods -> method_writes_own m = true).
+Proof.
+  intros H. apply static_ok_parts in H. destruct H as [_ [A [B [C [D [E [F _]]]]]]].
+  unfold static_no_class_mutable in A. unfold static_no_foreign_writes in B. unfold static_shared_edges_expected in C.
+  unfold static_pkgvars_guarded in D. unfold static_accessors_disciplined, static_registries_locked in E.
+  unfold static_methods_write_own in F.
+  apply andb_true_iff in D. destruct D as [D D5]. apply andb_true_iff in D. destruct D as [D D4].
+  apply andb_true_iff in D. destruct D as [D D3]. apply andb_true_iff in D. destruct D as [D1 D2].
+  apply andb_true_iff in E. destruct E as [E E3]. apply andb_true_iff in E. destruct E as [E1 E2].
+  apply andb_true_iff in F. destruct F as [F F3]. apply andb_true_iff in F. destruct F as [F1 F2].
+  split; [exact (is_nil_true _ A)|]. split; [exact (is_nil_true _ B)|].
+  split; [exact (pairs_eqb_eq _ _ C)|]. split; [exact (pairs_eqb_eq _ _ F3)|].
+  split; [exact (is_nil_true _ D1)|]. split; [exact (is_nil_true _ D2)|].
+  split; [exact (strs_eqb_eq _ _ D3)|]. split; [exact (strs_eqb_eq _ _ D4)|].
+  split; [intros r Hr; exact (proj1 (forallb_forall _ _) E1 r Hr)|].
+  split; [exact (strs_eqb_eq _ _ E3)|].
+  intros m Hm. exact (proj1 (forallb_forall _ _) F1 m Hm).
+Qed.
+
+(* C19_distinct_instances_disjoint_current with the static extraction as the (computed) premise *)
+Theorem static_distinct_instances_disjoint :
+  static_ok = true ->
+  forall a b : opdesc,
+    disjoint_insts a b = true ->
+    racy_conflict current_facts a b = false /\
+    (od_cold a = false -> od_cold b = false -> conflict current_facts a b = false).
+Proof. intros H a b. apply distinct_instances_disjoint. exact (proj1 (static_ok_repaired H)). Qed.
+
+Theorem static_searches_and_rankings_share_freely :
+  static_ok = true ->
+  forall a b : opdesc,
+    read_only_fam a -> read_only_fam b -> od_cold a = false -> od_cold b = false ->
+    conflict current_facts a b = false.
+Proof.
+  intros H a b. destruct (static_ok_repaired H) as [R D]. apply searches_and_rankings_share_freely; assumption.
+Qed.
